@@ -21,8 +21,11 @@ var c08Methods = []string{"ping", "find_node", "get_peers", "get", "announce_pee
 
 func c08Shapes(method string) []string {
 	switch method {
-	case "announce_peer", "put":
+	case "announce_peer":
 		return []string{"noa", "emptya", "idonly", "notoken", "badtoken", "tokened"}
+	case "put":
+		// tokened-*: correctly tokened puts that the BEP 44 store accepts or rejects (one datagram either way)
+		return []string{"noa", "emptya", "idonly", "notoken", "badtoken", "tokened", "tokened-mutable", "tokened-stale", "tokened-casbad", "tokened-badsig", "tokened-toobig", "tokened-saltbig", "tokened-noseq"}
 	}
 	return []string{"noa", "emptya", "idonly", "full"}
 }
@@ -56,7 +59,7 @@ func c08Reference(cfg, method, shape string) c08Expect {
 		return c08Expect{1, "e203"}
 	}
 	if isWrite(method) {
-		if shape == "tokened" {
+		if strings.HasPrefix(shape, "tokened") {
 			return c08Expect{1, "r-or-e"}
 		}
 		return c08Expect{} // no valid token: silence (C10)
@@ -176,6 +179,35 @@ func (q c08Query) build(token string) []byte {
 	if argShape == "tokened" || argShape == "badtoken" {
 		argShape = "full"
 	}
+	if strings.HasPrefix(argShape, "tokened-") {
+		pub := pubOf(bepKey1)
+		a := sim.M{"id": sim.IDStr(peerID), "token": tok, "k": string(pub[:])}
+		v, seq, salt := "x", int64(1), []byte(nil)
+		switch argShape {
+		case "tokened-stale":
+			seq = 0
+		case "tokened-casbad":
+			seq = 2
+			a["cas"] = 9
+		case "tokened-toobig":
+			v = strings.Repeat("v", 1001)
+		case "tokened-saltbig":
+			salt = []byte(strings.Repeat("s", 65))
+		}
+		a["v"], a["seq"] = v, seq
+		if salt != nil {
+			a["salt"] = string(salt)
+		}
+		a["sig"] = string(refSign(bepKey1, salt, seq, sim.Enc(v)))
+		switch argShape {
+		case "tokened-badsig":
+			a["sig"] = strings.Repeat("\x01", 64)
+		case "tokened-noseq":
+			delete(a, "seq")
+		}
+		m["a"] = a
+		return sim.Enc(m)
+	}
 	if a := queryArgs(q.method, argShape, tok); a != nil {
 		m["a"] = a
 	}
@@ -263,7 +295,7 @@ func runC08(t *testing.T, c explore.Case) (res explore.Result) {
 					return
 				}
 				tok := ""
-				if q.shape == "tokened" {
+				if strings.HasPrefix(q.shape, "tokened") {
 					var v string
 					tok, v = y.tokenFor(q)
 					if v != "" {
@@ -276,7 +308,7 @@ func runC08(t *testing.T, c explore.Case) (res explore.Result) {
 					res.Viol = "not-consumed: serve loop did not take the datagram"
 					return
 				}
-				if q.shape == "tokened" && tok == "" {
+				if strings.HasPrefix(q.shape, "tokened") && tok == "" {
 					// no token could be obtained (passive/veto/limited): then the write is untokened
 					q.shape = "notoken"
 				}
@@ -406,6 +438,7 @@ func c08Representatives() []string {
 		"q:ping:full:aa:v4", "q:ping:noa:a:v6", "q:find_node:full:nul:v4", "q:find_node:noa:hi:mapped",
 		"q:get_peers:full:t64:v6", "q:get:full:empty:v4", "q:get:noa:aa:v4", "q:announce_peer:tokened:aa:v4",
 		"q:announce_peer:badtoken:a:v4", "q:put:tokened:hi:v6", "q:vote:full:t300:v4", "q::noa:aa:mapped",
+		"q:put:tokened-mutable:aa:v4", "q:put:tokened-stale:a:v4", "q:put:tokened-casbad:aa:v6", "q:put:tokened-badsig:hi:v4",
 	}
 }
 
